@@ -42,6 +42,9 @@ func (c *vc06MetricsConsumer) ConsumeMetrics(_ context.Context, d pmetric.Metric
 func (c *vc06MetricsConsumer) mutate() {
 	r := c.got.ResourceMetrics().At(0)
 	r.Resource().Attributes().PutInt("touched-by", int64(c.idx))
+	// existing numeric values are updated in place as well (a value of the same type as before)
+	r.Resource().Attributes().PutInt("n", int64(c.mutation))
+	r.Resource().Attributes().PutDouble("d", 2.5)
 	dps := r.ScopeMetrics().At(0).Metrics().At(0).Gauge().DataPoints()
 	if dps.Len() > 0 {
 		dps.At(0).SetTimestamp(pcommon.Timestamp(c.mutation))
@@ -59,6 +62,12 @@ func vc06SnapMetrics(d pmetric.Metrics) vc06Snap {
 		s.res = v.Str()
 	}
 	_, s.touched = r.Resource().Attributes().Get("touched-by")
+	if v, ok := r.Resource().Attributes().Get("n"); ok {
+		s.n = v.Int()
+	}
+	if v, ok := r.Resource().Attributes().Get("d"); ok {
+		s.d = v.Double()
+	}
 	m := r.ScopeMetrics().At(0).Metrics().At(0)
 	s.res += "|" + m.Name()
 	dps := m.Gauge().DataPoints()
@@ -91,6 +100,8 @@ func VerifC06Metrics() {
 	d := pmetric.NewMetrics()
 	r := d.ResourceMetrics().AppendEmpty()
 	r.Resource().Attributes().PutStr("res", "r0")
+	r.Resource().Attributes().PutInt("n", 7)
+	r.Resource().Attributes().PutDouble("d", 1.5)
 	m := r.ScopeMetrics().AppendEmpty().Metrics().AppendEmpty()
 	m.SetName("m0")
 	dps := m.SetEmptyGauge().DataPoints()
@@ -129,10 +140,10 @@ func VerifC06Metrics() {
 			vAssert(vc06Same(vc06SnapMetrics(c.got), orig), "metrics/non-mutating-consumer-never-observes-a-change")
 		} else {
 			s := vc06SnapMetrics(c.got)
-			ok := s.touched && len(s.ts) == len(orig.ts)+2 && s.ts[0] == c.mutation && s.ts[1] == orig.ts[1]
+			ok := s.touched && len(s.ts) == len(orig.ts)+2 && s.ts[0] == c.mutation && s.ts[1] == orig.ts[1] && s.n == int64(c.mutation) && s.d == 2.5
 			if len(orig.ts) == 0 {
 				// a metric without data points: the first mutation appended two points, the second rewrote the first and appended one
-				ok = s.touched && len(s.ts) == 3 && s.ts[0] == c.mutation && s.ts[1] == c.mutation-6 && s.ts[2] == c.mutation+1
+				ok = s.touched && len(s.ts) == 3 && s.ts[0] == c.mutation && s.ts[1] == c.mutation-6 && s.ts[2] == c.mutation+1 && s.n == int64(c.mutation) && s.d == 2.5
 			}
 			vAssert(ok, "metrics/mutating-consumer-sees-only-its-own-changes")
 			vAssert(!c.got.IsReadOnly(), "metrics/mutating-consumer-gets-mutable-data")
@@ -179,6 +190,9 @@ func (c *vc06ProfilesConsumer) ConsumeProfiles(_ context.Context, d pprofile.Pro
 func (c *vc06ProfilesConsumer) mutate() {
 	r := c.got.ResourceProfiles().At(0)
 	r.Resource().Attributes().PutInt("touched-by", int64(c.idx))
+	// existing numeric values are updated in place as well (a value of the same type as before)
+	r.Resource().Attributes().PutInt("n", int64(c.mutation))
+	r.Resource().Attributes().PutDouble("d", 2.5)
 	ps := r.ScopeProfiles().At(0).Profiles()
 	ps.At(0).SetTime(pcommon.Timestamp(c.mutation))
 	ps.AppendEmpty().SetTime(pcommon.Timestamp(c.mutation + 1))
@@ -191,6 +205,12 @@ func vc06SnapProfiles(d pprofile.Profiles) vc06Snap {
 		s.res = v.Str()
 	}
 	_, s.touched = r.Resource().Attributes().Get("touched-by")
+	if v, ok := r.Resource().Attributes().Get("n"); ok {
+		s.n = v.Int()
+	}
+	if v, ok := r.Resource().Attributes().Get("d"); ok {
+		s.d = v.Double()
+	}
 	ps := r.ScopeProfiles().At(0).Profiles()
 	for i := 0; i < ps.Len(); i++ {
 		s.ts = append(s.ts, uint64(ps.At(i).Time()))
@@ -221,6 +241,8 @@ func VerifC06Profiles() {
 	d := pprofile.NewProfiles()
 	r := d.ResourceProfiles().AppendEmpty()
 	r.Resource().Attributes().PutStr("res", "r0")
+	r.Resource().Attributes().PutInt("n", 7)
+	r.Resource().Attributes().PutDouble("d", 1.5)
 	ps := r.ScopeProfiles().AppendEmpty().Profiles()
 	ps.AppendEmpty().SetTime(pcommon.Timestamp(vNondetUint64("ts")))
 	ps.AppendEmpty().SetTime(pcommon.Timestamp(vNondetUint64("ts")))
@@ -255,7 +277,7 @@ func VerifC06Profiles() {
 			vAssert(vc06Same(vc06SnapProfiles(c.got), orig), "profiles/non-mutating-consumer-never-observes-a-change")
 		} else {
 			s := vc06SnapProfiles(c.got)
-			ok := s.touched && len(s.ts) == len(orig.ts)+2 && s.ts[0] == c.mutation && s.ts[1] == orig.ts[1]
+			ok := s.touched && len(s.ts) == len(orig.ts)+2 && s.ts[0] == c.mutation && s.ts[1] == orig.ts[1] && s.n == int64(c.mutation) && s.d == 2.5
 			vAssert(ok, "profiles/mutating-consumer-sees-only-its-own-changes")
 			vAssert(!c.got.IsReadOnly(), "profiles/mutating-consumer-gets-mutable-data")
 		}
